@@ -1781,7 +1781,7 @@ func (a *Authenticator) setupStreamEncryption(negotiation *SecurityNegotiation) 
 			// If ECDH fails, log but don't fail the entire handshake
 			// This allows tests with placeholder keys to work
 			slog.Debug(fmt.Sprintf("⚠️  CRYPTO: ECDH key exchange failed (continuing without encryption): %v", err), "destination", "cedar")
-			return nil
+			return a.finishWithoutEncryption(negotiation, err)
 		}
 
 		slog.Debug("🔐 CRYPTO: ECDH successful, deriving AES key...", "destination", "cedar")
@@ -1824,6 +1824,25 @@ func (a *Authenticator) setupStreamEncryption(negotiation *SecurityNegotiation) 
 	// Freeze it now so the application phase -- e.g. a large collector query stream --
 	// skips the per-frame SHA256. Idempotent on an already-frozen (resumed) session.
 	a.stream.FinalizeDigests()
+	return a.finishWithoutEncryption(negotiation, nil)
+}
+
+// finishWithoutEncryption ends key setup for a session whose stream stays in
+// plaintext. That is an error when encryption was negotiated or when this side's
+// own policy requires encryption or integrity; otherwise the negotiation is made
+// to report the stream's real (unencrypted) state.
+func (a *Authenticator) finishWithoutEncryption(negotiation *SecurityNegotiation, cause error) error {
+	required := negotiation.Encryption
+	if a.config != nil && (a.config.Encryption == SecurityRequired || a.config.Integrity == SecurityRequired) {
+		required = true
+	}
+	if required && !a.stream.IsEncrypted() {
+		if cause != nil {
+			return fmt.Errorf("encryption is required but no session key could be agreed: %w", cause)
+		}
+		return fmt.Errorf("encryption is required but no session key could be agreed")
+	}
+	negotiation.Encryption = a.stream.IsEncrypted()
 	return nil
 }
 
